@@ -64,7 +64,7 @@ fn parts_eq(d: &css::State, s: &sodium::StreamState) -> bool {
 fn dpush(st: &mut css::State, api: Api, m: &[u8], ad: Option<&[u8]>, tag: u8) -> Result<Vec<u8>, String> {
     match api {
         Api::Classic => {
-            let mut c = vec![0u8; m.len() + 17];
+            let mut c = vec![0xa5u8; m.len() + 17]; // the caller's ciphertext buffer is not zero on entry
             css::crypto_secretstream_xchacha20poly1305_push(st, &mut c, m, ad, tag).map_err(|e| format!("push: {e:?}"))?;
             Ok(c)
         }
@@ -81,7 +81,7 @@ fn dpush(st: &mut css::State, api: Api, m: &[u8], ad: Option<&[u8]>, tag: u8) ->
 fn dpull(st: &mut css::State, api: Api, c: &[u8], ad: Option<&[u8]>) -> Result<(Vec<u8>, u8), String> {
     match api {
         Api::Classic => {
-            let mut m = vec![0u8; c.len().saturating_sub(17)];
+            let mut m = vec![0x5au8; c.len().saturating_sub(17)]; // dirty message buffer
             let mut tag = 0xA5u8;
             let n = css::crypto_secretstream_xchacha20poly1305_pull(st, &mut m, &mut tag, c, ad).map_err(|e| format!("{e:?}"))?;
             m.truncate(n);
@@ -360,7 +360,7 @@ fn api_strat() -> impl Strategy<Value = Api> {
 }
 
 fn op_strat() -> impl Strategy<Value = Op> {
-    let mlen = prop_oneof![4 => 0usize..=200, 1 => Just(1024usize), 1 => 60usize..=70];
+    let mlen = prop_oneof![16 => 0usize..=200, 4 => Just(1024usize), 4 => 60usize..=70, 1 => 4090usize..=4100, 1 => Just(8193usize), 1 => Just(12289usize)];
     let adlen = prop_oneof![2 => Just(None), 3 => (0usize..=40).prop_map(Some)];
     let tag = prop_oneof![6 => Just(0u8), 2 => Just(1u8), 2 => Just(2u8), 2 => Just(3u8), 2 => any::<u8>()];
     let wrong = prop_oneof![
@@ -396,7 +396,7 @@ pub fn case_strat(depth: usize) -> impl Strategy<Value = Case> {
 }
 
 pub fn run(ctx: &mut Ctx) -> Result<(), Violation> {
-    ctx.rule = "proptest histories vec(op, 0..=D) over {Push(mlen 0..=200|1024, adlen None|0..=40, any tag byte, classic|object API), Rekey, DeliverNext, DeliverWrong(replay|skip/swap|foreign stream|AD flipped/dropped/extended|bit flip|truncate|extend|genuine ciphertext into an undersized caller buffer)} from start classes {fresh, counter 2, 0x7fffffff, 0xfffffffd, 0xfffffffe, 0xffffffff} (preset through the verif_hooks constructor and libsodium's public state struct), interpreted in lock-step against dryoc push, dryoc pull, libsodium push and libsodium pull; all queued messages are delivered at the end. Oracle after every step: ciphertext bytes equal; (k, nonce) of dryoc state == libsodium state; in-order pull returns the pushed (message, tag); a wrong delivery (one libsodium rejects from the same state) returns Err without panic and leaves the dryoc pull state bit-identical (PartialEq and hook), after which the genuine next ciphertext is accepted. Non-trivial: history with >= 1 rejected wrong delivery followed by a successful pull, or that crosses a rekey (explicit, tag-driven, counter wrap); distinct = hash(history). Message-length residues mod 16/64 are additionally enumerated (0..=200) in a deterministic pass.".into();
+    ctx.rule = "proptest histories vec(op, 0..=D) over {Push(mlen 0..=200|1024|4090..=4100|8193|12289, caller buffers pre-filled with a non-zero pattern, adlen None|0..=40, any tag byte, classic|object API), Rekey, DeliverNext, DeliverWrong(replay|skip/swap|foreign stream|AD flipped/dropped/extended|bit flip|truncate|extend|genuine ciphertext into an undersized caller buffer)} from start classes {fresh, counter 2, 0x7fffffff, 0xfffffffd, 0xfffffffe, 0xffffffff} (preset through the verif_hooks constructor and libsodium's public state struct), interpreted in lock-step against dryoc push, dryoc pull, libsodium push and libsodium pull; all queued messages are delivered at the end. Oracle after every step: ciphertext bytes equal; (k, nonce) of dryoc state == libsodium state; in-order pull returns the pushed (message, tag); a wrong delivery (one libsodium rejects from the same state) returns Err without panic and leaves the dryoc pull state bit-identical (PartialEq and hook), after which the genuine next ciphertext is accepted. Non-trivial: history with >= 1 rejected wrong delivery followed by a successful pull, or that crosses a rekey (explicit, tag-driven, counter wrap); distinct = hash(history). Message-length residues mod 16/64 are additionally enumerated (0..=200) in a deterministic pass.".into();
     ctx.assumptions = vec![
         "libsodium's crypto_secretstream is the reference state machine".into(),
         "counter classes near 2^32 are reached through the feature-guarded State::verif_from_parts hook".into(),
@@ -406,7 +406,7 @@ pub fn run(ctx: &mut Ctx) -> Result<(), Violation> {
     let threads = ctx.threads.max(1);
     // deterministic pass: every message length 0..=200 x ad residues, each with a wrong delivery in between
     let mut det: Vec<Case> = vec![];
-    for mlen in 0..=200usize {
+    for mlen in (0..=200usize).chain([255, 256, 257, 1023, 1024, 1025, 4095, 4096, 4097, 4098, 8191, 8192, 8193, 12288, 12289, 16385, 65537]) {
         for (i, start) in [Start::Fresh, Start::Counter(0xffff_fffe)].iter().enumerate() {
             let adlen = if mlen % 3 == 0 { None } else { Some(mlen % 41) };
             det.push(Case {
